@@ -18,45 +18,45 @@ type Profile struct {
 	Steps    [2]int
 	W        map[string]int // op weights: connect subscribe unsubscribe publish disconnect ping hold tick
 
-	PubQoS      []byte
-	SubQoS      []byte
-	MaxQoS      []byte
-	RetainPct   int
-	EmptyPct    int // of retained publishes: empty payload
-	SubIDPct    int
-	NLPct       int
-	RAPPct      int
-	RH          []byte
-	PropsPct    int
-	CleanPct    int
-	Expiry      []uint32 // v5 session expiry choices (0 = absent)
-	RecvMax     []uint16
-	TAM         []uint16
-	RPI0Pct     int
-	DenyPct     int // percentage of (client,topic,rw) triples denied
-	DenySubPct  int
-	RetainAvail []bool
-	HowDisc     []string
-	WillPct     int
-	WillDelay   []uint32
-	WillTopics  []string
-	TickDelta   []int64
-	MultiFilter bool
-	MsgExp      []uint32
-	MaxMsgExp   []int64
-	MaxSessExp  []uint32
-	ObscurePct  int
-	AliasPct    int
-	SrvTAM      []int
-	BadTopicPct int
-	ConnectAllFirst bool
-	NoSelfTakeover  bool
+	PubQoS              []byte
+	SubQoS              []byte
+	MaxQoS              []byte
+	RetainPct           int
+	EmptyPct            int // of retained publishes: empty payload
+	SubIDPct            int
+	NLPct               int
+	RAPPct              int
+	RH                  []byte
+	PropsPct            int
+	CleanPct            int
+	Expiry              []uint32 // v5 session expiry choices (0 = absent)
+	RecvMax             []uint16
+	TAM                 []uint16
+	RPI0Pct             int
+	DenyPct             int // percentage of (client,topic,rw) triples denied
+	DenySubPct          int
+	RetainAvail         []bool
+	HowDisc             []string
+	WillPct             int
+	WillDelay           []uint32
+	WillTopics          []string
+	TickDelta           []int64
+	MultiFilter         bool
+	MsgExp              []uint32
+	MaxMsgExp           []int64
+	MaxSessExp          []uint32
+	ObscurePct          int
+	AliasPct            int
+	SrvTAM              []int
+	BadTopicPct         int
+	ConnectAllFirst     bool
+	NoSelfTakeover      bool
 	KeepSharedConnected bool
-	DupQ2Pct    int
-	CollidePct  int
-	Size        []int
-	SlotFilters map[int][]string // optional per-slot filter sets
-	NoWillSlots map[int]bool
+	DupQ2Pct            int
+	CollidePct          int
+	Size                []int
+	SlotFilters         map[int][]string // optional per-slot filter sets
+	NoWillSlots         map[int]bool
 	// TakeoverSafe: connections on ids that have several slots (live takeover possible) are MQTT 5 with a
 	// non-zero session expiry, i.e. never sessions that end at disconnect (avoids the recorded
 	// late-cleanup race of a superseded connection, which is decided by schedule-controlled probes)
